@@ -1,5 +1,13 @@
 import SteelVerif.C02.Props
 open SteelVerif.C02
+#print axioms inline_preserves
+#print axioms inline_prog_preserves
+#print axioms inline_twice_preserves
+#print axioms tier_transparent
+#print axioms tier_hypothesis_needed
+#print axioms inline_history_partial
+#print axioms witness_outside_guard
+#print axioms inline_history_false
 #print axioms switches_covered
 #print axioms switch_tests_recognised
 #print axioms quick_pairwise
